@@ -74,7 +74,7 @@ void SIS::filtering_step()
 
     if (resampling().neff(cor_particle_.weight()) < static_cast<double>(num_particle_)/3.0)
     {
-        ParticleSet res_particle(num_particle_, state_size_);
+        ParticleSet res_particle(num_particle_, cor_particle_.dim_linear, cor_particle_.dim_circular);
         VectorXi res_parent(num_particle_, 1);
 
         resampling().resample(cor_particle_, res_particle, res_parent);
